@@ -123,6 +123,9 @@ type Knobs struct {
 	RandomMaxExp                                     bool // per-AS maximum hop expiry drawn from 0..255
 	DirectConfigOrder                                bool // configure through direct Connector calls in a drawn order (C11)
 	RouterPortOverride                               bool
+	// ConcBeacon: several beacons are extended at the same time (as the propagator does), with
+	// the goroutines interleaved by the seeded scheduler at every MAC operation.
+	ConcBeacon bool
 }
 
 func (w *World) AS(ia addr.IA) *AS { return w.byIA[ia] }
